@@ -55,6 +55,7 @@ End R.
 #[global] Hint Rewrite @r_eg_seal_scalar_some : rfn.
 #[global] Hint Rewrite @r_eg_decrypt : rfn.
 #[global] Hint Rewrite @r_eg_verify_proof : rfn.
+#[global] Hint Rewrite @r_eg_verify_and_decrypt : rfn.
 Print Assumptions r_message_generator.
 Print Assumptions r_eg_seal_scalar.
 Print Assumptions r_eg_seal_scalar_some.
